@@ -86,16 +86,24 @@ func (r RaceReport) Key() string {
 	return strings.Join(parts, " || ")
 }
 
-// TouchesCue reports whether one of the two access stacks has a frame in cuelang.org/go (outside the harness).
+// TouchesCue reports whether one of the two conflicting accesses happens in
+// cuelang.org/go code: the innermost frame of the access that is neither the
+// Go runtime/standard library nor the harness lies in cuelang.org/go.  A race
+// whose both accesses are made by harness code (even when called back from
+// cue, e.g. inside a Runner) is a harness bug.
 func (r RaceReport) TouchesCue() bool {
 	for i, st := range r.Stacks {
 		if i >= 2 {
 			break
 		}
 		for _, f := range st {
-			if strings.Contains(f, "cuelang.org/go/") && !strings.Contains(f, "cuelang.org/go/verifh/") {
+			if strings.Contains(f, "cuelang.org/go/verifh/") || strings.HasPrefix(f, "main.") {
+				break // the access itself is harness code
+			}
+			if strings.Contains(f, "cuelang.org/go/") {
 				return true
 			}
+			// runtime / standard library / third-party frame: look further out
 		}
 	}
 	return false
